@@ -13,6 +13,7 @@ fmt keys (all optional; absent = canonical):
   tail: list[str]       raw lines appended after the last statement (e.g. ["# x"], [""], ["  "])
   lead: list[str]       raw lines before everything (only sensible when there is no header comment)
   marker: str           the service response marker (default "---")
+  blank: str            content of the "empty" lines emitted for blanks / orphan fences (default "": truly empty)
 """
 from __future__ import annotations
 
@@ -69,15 +70,17 @@ def render(d: dict, fmt: dict | None = None) -> tuple[str, dict[str, int]]:
         if tag is not None:
             lmap[tag] = len(lines)
 
+    blank = fmt.get("blank", "")  # what an "empty" line consists of ("" or blanks only)
+
     def after(si: int, idx: int) -> None:
         k = "%d:%d" % (si, idx)
         if k in orphans:
-            emit("")
+            lines.append(blank)
             for ln in _doc_lines(orphans[k]):
                 emit(ln, comment=True)
-            emit("")
+            lines.append(blank)
         for _ in range(int(blanks.get(k, 0))):
-            emit("")
+            lines.append(blank)
 
     for si, s in enumerate(d["secs"]):
         if si == 1:
